@@ -77,6 +77,20 @@ class Universe:
         self.world.accept("x33", nxt)
         self.labels["x33"] = "x33"
         self.tips = ["t30", "t30", "t20", "t12", "d27", "d15", "r31", "r30", "r30", "r29", "e24", "t5", "g", "t3"]
+        # a block q29 (a sibling of t29 and r29) that mines a transaction whose input stays unspent all the way to r31
+        self.pool_history = []
+        both = sorted((r_, o) for r_, o in self.node("t28").utxo.items() if r_ in self.node("r31").utxo and o[0] >= 2 and any(k.pub == o[1] for k in KEYS))
+        if both:
+            ref, o = both[0]
+            kk = next(k for k in KEYS if k.pub == o[1])
+            t = R.RTx([(ref[0], ref[1], ("se",))], [(o[0] - 1, KEYS[5].pub)])
+            t.ins = [(ref[0], ref[1], ("sig", kk.sign(R.signing_message(t))))]
+            self.world.txs["q29.t"] = t.touch()
+            q = self.world.build_block({"label": "q29", "parent": self.labels["t28"], "miner": 6, "dt": 9, "txs": [{"copy": "q29.t"}]})
+            if q is not None and not self.world.uni.validate(q, q.ts):
+                self.world.accept("q29", q)
+                self.labels["q29"] = "q29"
+                self.pool_history = [("q29", 1)]
         self.sk = {}
 
     def blk(self, name):
@@ -177,6 +191,18 @@ class Sim:
         RP.ConnectedRemotePeer.send_message = send
         B = len(u.world.uni.nodes)
         self.cap = 20 * 8 * (2 * B + 2 * (B // max(1, min(case["batch"], B)) + 1) + 10)
+        if case.get("pool_history"):
+            # one node has HISTORY in its pool: it admitted a transaction, then saw it mined on its branch (the pool dropped it);
+            # the network will later converge on a branch where that transaction is not mined, i.e. valid again
+            ph = case["pool_history"]
+            blk = u.blk(ph["block"])
+            n = self.nodes[ph["node"]]
+            if not n.cm.add_transaction_to_pool(u.b.to_sk_tx(blk.txs[ph["tx"]])):
+                raise env.HarnessError("pool-history transaction refused at its block's parent")
+            n.cm.set_coinstate(n.cm.coinstate.add_block_no_validation(u.sk_block(blk.id())))
+            if n.cm.transaction_pool:
+                raise env.HarnessError("pool-history transaction not evicted by the block that mines it")
+            self.stats_pool_history = 1
         self.init_heights = [n.cm.coinstate.head().height for n in self.nodes]
         self.want_h = max(self.init_heights)
         self.stats = {"fair_rounds": 0, "events": 0}
@@ -415,12 +441,19 @@ class Sim:
         sender = self.nodes[case["relay"]["tx_from"] % len(self.nodes)]
         cand = sorted((r, o) for r, o in hnode.utxo.items() if o[0] >= 2 and any(k.pub == o[1] for k in KEYS))
         tx = None
-        if cand:
+        if case.get("pool_history"):
+            ph = case["pool_history"]
+            t0 = u.blk(ph["block"]).txs[ph["tx"]]
+            if all((h_, i_) in hnode.utxo for (h_, i_, _s) in t0.ins):
+                tx = t0                       # the very transaction one node once pooled and dropped: valid again at the common head
+                self.stats["relay_of_a_once_pooled_transaction"] = 1
+        elif cand:
             ref, o = cand[case["relay"]["tx_pick"] % len(cand)]
             k = next(k for k in KEYS if k.pub == o[1])
             tx = R.RTx([(ref[0], ref[1], ("se",))], [(o[0] - 1, KEYS[3].pub)])
             tx.ins = [(ref[0], ref[1], ("sig", k.sign(R.signing_message(tx))))]
             tx.touch()
+        if tx is not None:
             self.injecting = True
             sender.nm.broadcast_transaction(b.to_sk_tx(tx))
             self.injecting = False
@@ -480,6 +513,14 @@ def gen_case(rnd, u):
     for _ in range(n):
         k = rnd.choice([1, 1, 2])
         tips.append([u.tips[rnd.randrange(len(u.tips))] for _ in range(k)])
+    if rnd.random() < 0.12 and u.pool_history:
+        # line A - B - C; B once pooled a transaction that was then mined on its (shorter) d-branch; everybody ends on the t-branch
+        name, ti = u.pool_history[rnd.randrange(len(u.pool_history))]
+        return {"tips": [["r31"], ["t28"], [rnd.choice(["t12", "t20", "t28"])]], "topo": [[0, 1], [2, 1]], "blocked": [[0, 2], [2, 0]],
+                "batch": rnd.choice([500, 4]), "sched_seed": rnd.randrange(1 << 30), "discipline": rnd.choice(["uniform", "priority", "run_to_completion"]),
+                "n_events": rnd.choice([0, 50, 300]), "clock_off": rnd.choice([0, 7, 59]), "started_ago": rnd.choice([0, 30, 10_000]),
+                "relay": {"block_from": 0, "tx_from": 0, "tx_pick": 0, "n_events": rnd.choice([0, 100])},
+                "pool_history": {"node": 1, "block": name, "tx": ti}, "family": "pool_history"}
     if rnd.random() < 0.07:
         tips[rnd.randrange(n)] = ["x33"]            # one node holds the branch with the maximum-size block (a 200,000-byte message)
     topo = rnd.choice(TOPOS2 if n == 2 else TOPOS3)
